@@ -146,6 +146,7 @@ where
         let desc = format!("\"op\":\"query\",\"a\":{},\"b\":{},\"t\":{},\"take\":{},\"whole\":{},\"raw\":\"{}:{}\"", self.off(a), self.off(b), time, take, whole, a, b);
         self.count_pair(&format!("query {} {} {} {} {}", self.off(a), self.off(b), time, take, arm));
         self.tr.pre(&format!("{},\"out\":\"aborted\"", desc));
+        let cap_items = self.next_id as i64 + 8;
         let t = self.t.as_mut().unwrap();
         let mut got: Vec<i64> = vec![];
         let o = observe(arm, || {
@@ -157,6 +158,10 @@ where
                 }
                 got.push(v.id as i64);
                 n += 1;
+                // an iterator that yields more items than values were ever inserted does not end by itself
+                if n > cap_items {
+                    break;
+                }
             }
         });
         let unwound = matches!(o.out, Outcome::Unwound(_));
@@ -189,6 +194,22 @@ where
         });
         let f = out_fields(&o);
         self.tr.line(&format!("\"ev\":\"op\",{},\"row\":{},\"dup\":{},{}", desc, list_json(&row), dup, f));
+    }
+
+    /// n values with the same range and expiration, inserted by one observed call (no chunk dump)
+    pub fn bulk(&mut self, a: i64, b: i64, e: i32, n: i32) {
+        let id0 = self.next_id;
+        self.next_id += n;
+        let desc = format!("\"op\":\"bulk\",\"id\":{},\"n\":{},\"a\":{},\"b\":{},\"e\":{},\"raw\":\"{}:{}\"", id0, n, self.off(a), self.off(b), e, a, b);
+        self.tr.pre(&format!("{},\"out\":\"aborted\"", desc));
+        let t = self.t.as_mut().unwrap();
+        let o = observe(0, || {
+            for i in 0..n {
+                t.insert_by_range(SegRange { min: R::from_i64(a), max: R::from_i64(b) }, SV { id: id0 + i, e });
+            }
+        });
+        let f = out_fields(&o);
+        self.tr.line(&format!("\"ev\":\"op\",{},{}", desc, f));
     }
 
     pub fn clear(&mut self) {
@@ -289,6 +310,108 @@ where
                 }
             }
         }
+    }
+}
+
+/// Long bucket lists and time coincidences, driven deterministically (the random histories spread a
+/// few dozen values over up to eight places each, so a list rarely holds more than a handful):
+///  1  one leaf list grown to 70 copies; at the lengths around 16, 32 and 64 (where its Vec is exactly
+///     full) a value that expires exactly at the query time is inserted, queried, followed by one more
+///     insertion into the same list and the same query again
+///  2  a root list of more than 16 whole-domain values, an expired single-bucket value in a list that
+///     is scanned after it, and a complete whole-domain query (the expired copy must be gone)
+///  3  (inject) a list of a dozen copies with expired ones followed by live ones: every callback index
+///     of a query over it panics in turn, each followed by a complete whole-domain query
+///  4  (bulk > 0) that many values in one list by one bulk call, queried completely
+pub fn run_dense<R: Coord>(tr: &mut Trace, lo: i64, hi: i64, seed: u64, inject: bool, bulk: i32)
+where
+    i64: From<R>,
+{
+    let mut rng = Rng::new(seed);
+    let len = ((hi as i128) - (lo as i128) + 1) as u128;
+    let p = 128 - (len - 1).max(1).leading_zeros();
+    let w: i128 = 1i128 << p.saturating_sub(5);
+    let nb = ((len as i128 + w - 1) / w) as i64; // buckets in use
+    let bucket = |b: i64| -> (i64, i64) {
+        let a = (lo as i128 + (b as i128) * w).min(hi as i128) as i64;
+        let z = (lo as i128 + (b as i128 + 1) * w - 1).min(hi as i128) as i64;
+        (a, z)
+    };
+    // 1
+    {
+        let mut s: SegSession<R> = SegSession::open(&mut *tr, lo, hi);
+        if s.t.is_none() {
+            return;
+        }
+        let b1 = rng.range(0, nb - 1);
+        let (a, z) = bucket(b1);
+        let mut clock = [0i32, -500, 100_000][(seed % 3) as usize];
+        for n in 1..=70 {
+            if [15, 16, 31, 32, 63, 64].contains(&n) {
+                s.query(a, z, clock, -1, 0, false);
+                s.insert(a, z, clock); // expires exactly at the time of the last (and next) query
+                s.query(a, z, clock, -1, 0, false);
+                s.insert(a, z, clock + 50);
+                s.query(a, z, clock, -1, 0, true);
+                clock += 1;
+            } else {
+                let e = if n % 7 == 3 { clock + 1 } else { clock + 50 };
+                s.insert(a, z, e);
+            }
+        }
+        s.query(lo, hi, clock + 2, -1, 0, true);
+        s.query(a, z, clock + 2, -1, 0, true);
+        s.clear();
+        s.query(lo, hi, 0, -1, 0, true);
+    }
+    // 2
+    {
+        let mut s: SegSession<R> = SegSession::open(&mut *tr, lo, hi);
+        let clock = 10;
+        for n in 17..=19 {
+            s.clear();
+            for _ in 0..n {
+                s.insert(lo, hi, clock + 100);
+            }
+            for b in [0, nb / 2, nb - 1] {
+                let (a, z) = bucket(b);
+                s.insert(a, z, clock); // live at `clock`, expired from `clock + 1` on
+                s.insert(a, z, clock + 100);
+            }
+            s.query(lo, hi, clock, -1, 0, true);
+            s.query(lo, hi, clock + 1, -1, 0, true);
+        }
+    }
+    // 3
+    if inject {
+        let mut s: SegSession<R> = SegSession::open(&mut *tr, lo, hi);
+        let (a, z) = bucket(rng.range(0, nb - 1));
+        let clock = 5;
+        let exps = [9, 9, 4, 9, 3, 9, 9, 4, 9, 9, 9, 2, 9];
+        let mut j = 1u64;
+        loop {
+            s.clear();
+            for e in exps {
+                s.insert(a, z, e);
+            }
+            let unwound = s.query(a, z, clock, -1, j, true);
+            s.query(lo, hi, clock, -1, 0, true);
+            s.query(a, z, clock, -1, 0, true);
+            if !unwound || j > 60 {
+                break;
+            }
+            j += 1;
+        }
+    }
+    // 4
+    if bulk > 0 {
+        let mut s: SegSession<R> = SegSession::open(&mut *tr, lo, hi);
+        let (a, z) = bucket(rng.range(0, nb - 1));
+        s.bulk(a, z, 100, bulk);
+        s.insert(a, z, 100);
+        s.query(a, z, 5, -1, 0, false);
+        s.query(a, z, 5, 10, 0, false);
+        s.query(lo, hi, 6, -1, 0, false);
     }
 }
 
